@@ -16,7 +16,7 @@ Definition u1 := str "https://example.net/up/1?x=%20".
 Definition ex_or : oracles :=
   mk_or [(j1, Some j1); (str "not a jid@", None)]
         [(L_utc_nano, t1, t1_utc); (L_tzo, t1, str "+01:00"); (L_zone_nano, t1, t1_zone)]
-        [(P_rfc3339, t1_utc, Some (utc t1)); (P_tzo, str "+01:00", Some (mktm 0 0 3600)); (P_text, t1_zone, Some t1)]
+        [(P_rfc3339, t1_utc, Some (utc t1)); (P_tzo, str "+01:00", Some (mktm 0 0 3600)); (P_text, t1_zone, Some t1); (P_text, t1_utc, Some (utc t1))]
         [(b64enc k1, Some k1)] [(u1, Some u1)] [(1500000000%Z, str "2")].
 
 (* a total oracle: the premise of the totality theorems *)
@@ -29,7 +29,7 @@ Proof. constructor; intros; cbn; try exact I. destruct (is_nil s); exact I. Qed.
 Example ex_jid_canon : jid_canon ex_or j1 /\ jid_canon ex_or [].
 Proof. split; [right; reflexivity|left; reflexivity]. Qed.
 
-Example ex_time : time_utc_roundtrip ex_or t1 /\ tzo_roundtrip ex_or t1 /\ time_zone_roundtrip ex_or t1.
+Example ex_time : time_utc_roundtrip ex_or t1 /\ tzo_roundtrip ex_or t1 /\ time_text_roundtrip ex_or t1.
 Proof. split; [reflexivity|]. split; [|reflexivity]. exists (mktm 0 0 3600). split; reflexivity. Qed.
 
 Example ex_b64 : b64_roundtrip ex_or k1 /\ b64enc k1 = str "YWJj".
